@@ -53,6 +53,29 @@ struct Case {
     mutated: bool,
 }
 
+/// Truncation lengths tried for a seed of `n` bytes: all of them up to 16 KiB; for longer seeds every length in the first
+/// and the last 300 bytes, every multiple of 4096 with its two neighbours (chunk / page boundaries), and every 1021st length.
+fn truncation_lengths(n: usize) -> Vec<usize> {
+    if n <= 16 * 1024 {
+        return (0..n).collect();
+    }
+    let mut v: Vec<usize> = (0..300).chain(n - 300..n).collect();
+    let mut k = 4096;
+    while k < n {
+        v.extend([k - 1, k, k + 1]);
+        k += 4096;
+    }
+    let mut k = 300;
+    while k < n {
+        v.push(k);
+        k += 1021;
+    }
+    v.retain(|&x| x < n);
+    v.sort_unstable();
+    v.dedup();
+    v
+}
+
 const HOSTILE: [u8; 8] = [0x00, 0x01, 0x7F, 0x80, 0xFE, 0xFF, 0x10, 0x41];
 
 fn plausible_args(n: usize) -> Vec<usize> {
@@ -74,8 +97,8 @@ fn enumerate<S: MutSpec>(spec: &S, tier: Tier, f: &mut dyn FnMut(Case) -> bool) 
                 return;
             }
         }
-        // every truncation, every plausible length argument
-        for k in 0..len {
+        // every truncation (seeds over 16 KiB: see `truncation_lengths`), every plausible length argument
+        for k in truncation_lengths(len) {
             for &a in &args {
                 if !f(Case { desc: format!("{}:trunc({k})/arg={a}", seed.label), input: seed.bytes[..k].to_vec(), arg: a, mutated: true }) {
                     return;
